@@ -387,20 +387,25 @@ class _Sub(ast.NodeTransformer):
 
 
 _KEEP: frozenset = frozenset()
+_HOIST_TESTS = False
 
 
-def unrolled(model: Model, fi: FuncInfo, keep: frozenset = frozenset()) -> FuncInfo:
-    """keep: names of helpers that stay calls (a rule that reasons about the call of a named helper asks for that)"""
-    global _KEEP
+def unrolled(model: Model, fi: FuncInfo, keep: frozenset = frozenset(), hoist_tests: bool = False) -> FuncInfo:
+    """keep: names of helpers that stay calls (a rule that reasons about the call of a named helper asks for that);
+    hoist_tests: a private helper called in the test of an `if` is read in place too (t = h(..); if t: ..) - for rules
+    that follow what the helper does, not the name of the predicate"""
+    global _KEEP, _HOIST_TESTS
     cache = model.__dict__.setdefault("_unrolled_cache", {})
-    k = (fi.qual, keep)
+    k = (fi.qual, keep, hoist_tests)
     if k in cache:
         return cache[k]
     old, _KEEP = _KEEP, keep
+    old_h, _HOIST_TESTS = _HOIST_TESTS, hoist_tests
     try:
         out = _unroll(model, fi)
     finally:
         _KEEP = old
+        _HOIST_TESTS = old_h
     cache[k] = out
     return out
 
@@ -461,13 +466,15 @@ def _inline_returned_helpers(model: Model, fi: FuncInfo, body: List[ast.stmt]) -
                     break  # read as a whole by the inliner
                 if isinstance(cur, (ast.Return, ast.Expr, ast.Assign, ast.AugAssign)):
                     holder, fld = cur, "value"
+                elif isinstance(cur, ast.If) and _HOIST_TESTS:
+                    holder, fld = cur, "test"
                 else:
                     break  # (tests of if statements keep their predicate calls: rules read those as guards)
                 e = getattr(holder, fld)
                 if e is None:
                     break
                 first = next(_eval_order(e), None)
-                if not isinstance(first, ast.Call) or first is e:
+                if not isinstance(first, ast.Call) or (first is e and not isinstance(cur, ast.If)):
                     break
                 got = _resolve_helper(model, fi, first)
                 if got is None or not got[0].is_private or got[0] is fi or got[0].name in _KEEP or isinstance(got[0].node, ast.Lambda):
@@ -483,16 +490,20 @@ def _inline_returned_helpers(model: Model, fi: FuncInfo, body: List[ast.stmt]) -
                 a_ = _fresh(ast.copy_location(ast.Assign(targets=[ast.Name(id=tmp, ctx=ast.Store())], value=first, type_comment=None), st))
                 ast.fix_missing_locations(a_)
 
+                # the statement's expression is rebuilt (never changed in place: it belongs to the function's own tree)
+                e2 = clone_ast(e)
+                twin = next((y for x, y in zip(ast.walk(e), ast.walk(e2)) if x is first), None)
+                if twin is None:
+                    break
+
                 class _Rep(ast.NodeTransformer):
                     def visit(self, n):
-                        if n is first:
+                        if n is twin:
                             return ast.copy_location(ast.Name(id=tmp, ctx=ast.Load()), first)
                         return self.generic_visit(n)
 
                 new = copy.copy(cur)
-                setattr(new, fld, _Rep().visit(e if e is not first else e))
-                if e is first:
-                    setattr(new, fld, ast.copy_location(ast.Name(id=tmp, ctx=ast.Load()), first))
+                setattr(new, fld, _Rep().visit(e2))
                 _fresh(new)
                 out.append(a_)
                 cur = new
@@ -610,24 +621,73 @@ def _eval_order(e: ast.AST):
         yield _Opaque()
 
 
-def _unroll_literal_loop(st: ast.stmt) -> List[ast.stmt]:
-    """for v in (a, b): body   with a literal tuple of plain names / constants, a plain loop variable that the body does
-    not re-bind, no break / continue / else: body[v:=a]; body[v:=b]"""
-    if not (isinstance(st, ast.For) and not st.orelse and isinstance(st.target, ast.Name) and isinstance(st.iter, (ast.Tuple, ast.List)) and all(isinstance(e, (ast.Name, ast.Constant)) for e in st.iter.elts)):
+def _unroll_literal_loop(st: ast.stmt, literal: Optional[ast.AST] = None) -> List[ast.stmt]:
+    """for v in (a, b): body   /   for k, v in ((k1, v1), (k2, v2)): body   with a literal tuple of plain names,
+    constants and attribute reads, loop variables the body does not re-bind, no break / continue / else:
+    body[v:=a]; body[v:=b].  `literal` stands for the iterable when that is a local name bound once to a literal."""
+    if not (isinstance(st, ast.For) and not st.orelse):
         return [st]
-    v = st.target.id
+    it = literal if literal is not None else st.iter
+    if not isinstance(it, (ast.Tuple, ast.List)) or not it.elts:
+        return [st]
+    if isinstance(st.target, ast.Name):
+        names = [st.target.id]
+        rows = [[e] for e in it.elts]
+    elif isinstance(st.target, (ast.Tuple, ast.List)) and all(isinstance(e, ast.Name) for e in st.target.elts):
+        names = [e.id for e in st.target.elts]
+        if not all(isinstance(r, (ast.Tuple, ast.List)) and len(r.elts) == len(names) for r in it.elts):
+            return [st]
+        rows = [list(r.elts) for r in it.elts]
+    else:
+        return [st]
+    if not all(_pure(e) for r in rows for e in r):
+        return [st]
     for x in ast.walk(st):
         if isinstance(x, (ast.Break, ast.Continue, ast.Return, ast.Yield, ast.YieldFrom, ast.Lambda, ast.FunctionDef)):
             return [st]
-        if isinstance(x, ast.Name) and x.id == v and isinstance(x.ctx, (ast.Store, ast.Del)) and x is not st.target:
+        if isinstance(x, ast.Name) and x.id in names and isinstance(x.ctx, (ast.Store, ast.Del)) and not any(x is t_ for t_ in ast.walk(st.target)):
             return [st]
     out: List[ast.stmt] = []
-    for e in st.iter.elts:
+    for r in rows:
         for b in st.body:
-            nb = _Sub({v: e}).visit(clone_ast(b))
+            nb = _Sub(dict(zip(names, r))).visit(clone_ast(b))
             ast.fix_missing_locations(nb)
+            nb._fresh = True  # type: ignore
             out.append(nb)
     return out
+
+
+def _unroll_local_tables(fi: FuncInfo, body: List[ast.stmt]) -> Tuple[List[ast.stmt], bool]:
+    """t = ((k1, v1), (k2, v2)); for k, v in t: body   (t a local bound once to a literal of plain expressions and read
+    only by that loop; the loop variables dead afterwards): the loop body once per row, in order"""
+    changed = False
+    out: List[ast.stmt] = []
+    all_nodes = [n for st in body for n in ast.walk(st)]
+    for i, st in enumerate(body):
+        if isinstance(st, ast.For) and not st.orelse:
+            lit = None
+            if isinstance(st.iter, (ast.Tuple, ast.List)):
+                lit = st.iter
+            elif isinstance(st.iter, ast.Name) and st.iter.id not in fi.params:
+                nm = st.iter.id
+                stores = [n for n in all_nodes if isinstance(n, ast.Name) and n.id == nm and isinstance(n.ctx, (ast.Store, ast.Del))]
+                loads = [n for n in all_nodes if isinstance(n, ast.Name) and n.id == nm and isinstance(n.ctx, ast.Load)]
+                prev = out[-1] if out else None
+                if len(stores) == 1 and len(loads) == 1 and isinstance(prev, ast.Assign) and len(prev.targets) == 1 and prev.targets[0] is stores[0] and isinstance(prev.value, (ast.Tuple, ast.List)):
+                    # the rows' expressions are evaluated when the table is built, just before the loop: nothing in between
+                    lit = prev.value
+            if lit is not None:
+                tnames = {n.id for n in ast.walk(st.target) if isinstance(n, ast.Name)}
+                used_after = any(isinstance(n, ast.Name) and n.id in tnames for later in body[i + 1:] for n in ast.walk(later))
+                rep = _unroll_literal_loop(st, lit) if not used_after else [st]
+                if not (len(rep) == 1 and rep[0] is st):
+                    if lit is not st.iter:
+                        out.pop()  # the table itself is no longer read
+                    out.extend(rep)
+                    changed = True
+                    continue
+        out.append(st)
+    return out, changed
 
 
 def _is_none(e) -> bool:
@@ -1105,6 +1165,8 @@ def _unroll(model: Model, fi: FuncInfo) -> FuncInfo:
             for st_ in body:
                 _fresh(st_)
     body, ch = _split_records(model, fi, body)
+    changed = changed or ch
+    body, ch = _unroll_local_tables(fi, body)
     changed = changed or ch
     new_body = body
     if not changed:
